@@ -202,6 +202,12 @@ class Compiler:
                 error_handling=node.get("error_handling", "raise"),
                 clone=node.get("clone", False),
             )
+        for step in node.get("renames_after", []):
+            # renames applied AFTER map_over was configured (the mapping configuration must follow them)
+            if step.get("inputs"):
+                gn = gn.with_inputs(**step["inputs"])
+            if step.get("outputs"):
+                gn = gn.with_outputs(**step["outputs"])
         return gn
 
     @staticmethod
